@@ -660,10 +660,11 @@ Qed.
 
 Lemma parse_loop_VS rx ps : forall st st', VS (p_rules st) -> parse_loop rx st ps = inl st' -> VS (p_rules st').
 Proof.
-  induction ps as [|p ps IH]; simpl; intros st st' H E.
+  induction ps as [|[p|g] ps IH]; simpl; intros st st' H E.
   - inversion E; subst; auto.
   - destruct (parse_step rx st p) as [st1|e] eqn:Es; [|discriminate].
     eapply IH; [|exact E]. simpl. eapply parse_step_VS; eauto.
+  - eapply IH; [|exact E]. exact H.
 Qed.
 
 Lemma parse_sheet_VS rx env ps rs e : parse_sheet rx env ps = inl (rs, e) -> VS rs.
@@ -1209,10 +1210,11 @@ Qed.
 
 Lemma parse_loop_inv rx ps : forall st st', PInv st -> parse_loop rx st ps = inl st' -> PInv st'.
 Proof.
-  induction ps as [|p ps IH]; simpl; intros st st' H E.
+  induction ps as [|[p|g] ps IH]; simpl; intros st st' H E.
   - inversion E; subst; auto.
   - destruct (parse_step rx st p) as [st1|e] eqn:Es; [|discriminate].
     eapply IH; [|exact E]. pose proof (parse_step_inv _ _ _ _ H Es) as [A B]. split; auto.
+  - eapply IH; [|exact E]. destruct H as [A B]. split; auto.
 Qed.
 
 Lemma parse_sheet_noraise rx env ps rs e : parse_sheet rx env ps = inl (rs, Some e) -> False.
@@ -1453,6 +1455,41 @@ Qed.
 (* non-vacuity: a history whose operations are all admissible and that builds a five-rule sheet, passing through
    the placement that used to fail ([comment, @import] + add(@namespace)) *)
 Definition P (k : kind) : proto := mkProto k 0 0 0 [] [].
+
+(* ------------------------------------------------------------------ CDO / CDC reset the order state: why the order holds anyway
+   The parser's `expected` alone does NOT guarantee the order: a machine that appends whatever passes its threshold
+   test accepts [style; '<!--'; @import].  The parser model is safe because every rule goes through insert_rule, whose
+   `place` re-checks the neighbours: parse_loop preserves validity from ANY state, whatever `expected` says. *)
+Theorem parse_valid_whatever_expected_main rx its st st' :
+  valid_sheet (p_rules st) = true -> parse_loop rx st its = inl st' -> valid_sheet (p_rules st') = true.
+Proof. intros H E. exact (parse_loop_VS rx its st st' H E). Qed.
+
+Inductive kitem := KStmt (k : kind) | KSep (glued : bool).
+Fixpoint naive_append (acc : list kind) (expected : nat) (its : list kitem) : list kind :=
+  match its with
+  | [] => acc
+  | KSep g :: r => naive_append acc (if g then 0 else 1) r
+  | KStmt k :: r =>
+    let next := Nat.max 1 (match parse_next k with Some n => n | None => Nat.max 1 expected end) in
+    if match parse_threshold k with Some t => Nat.ltb t expected | None => false end
+    then naive_append acc (Nat.max 1 expected) r
+    else naive_append (acc ++ [k]) next r
+  end.
+
+Lemma naive_append_breaks_order :
+  valid_kinds (naive_append [] 0 [KStmt STYLE_RULE; KSep false; KStmt IMPORT_RULE; KStmt STYLE_RULE]) = false.
+Proof. reflexivity. Qed.
+
+Definition cdo_text : list titem :=
+  [TStmt (P STYLE_RULE); TSep false; TStmt (P IMPORT_RULE); TStmt (P STYLE_RULE); TSep true; TStmt (P CHARSET_RULE)].
+
+Lemma cdo_text_lenient :
+  match parse_sheet false [] cdo_text with inl (rs, None) => kinds rs = [STYLE_RULE; STYLE_RULE] | _ => False end.
+Proof. vm_compute. reflexivity. Qed.
+
+Lemma cdo_text_raising : parse_sheet true [] cdo_text = inr HierarchyRequestErr.
+Proof. vm_compute. reflexivity. Qed.
+
 Definition demo_ops : list op :=
   [ Ins (Text [P COMMENT]) None true;
     Ins (Text [P IMPORT_RULE]) None true;
@@ -1460,6 +1497,7 @@ Definition demo_ops : list op :=
     Ins (Text [P VARIABLES_RULE]) None true;
     Ins (Text [mkProto STYLE_RULE 0 0 0 [1%N] []]) (Some 4%Z) false;
     Ins (Text [P IMPORT_RULE]) (Some 5%Z) false;                 (* rejected: @import after a style rule *)
+    SetText cdo_text;                                            (* rejected: '<!--' resets expected, insertRule refuses *)
     Enc 1;
     In 9 (CDel 0) ].
 
